@@ -37,6 +37,7 @@ pub struct SegObs {
     pub closed: bool,
     pub unsaved: usize,
     pub size: u64,
+    pub unsaved_bytes: u64,
 }
 
 #[derive(Debug, Default)]
@@ -167,19 +168,19 @@ impl<'a> Interp<'a> {
         f
     }
 
-    /// Known finding KF-C03-1 (graceful shutdown under no-wait confirmation does not
-    /// wait for the background log persister): when masked, wait until the log files
-    /// have reached the size the server accounts for before shutting down.
+    /// No-wait confirmation (8.1-10): "acknowledged => visible" is not promised, so
+    /// before anything is read back the harness waits until the background persister
+    /// has written what the server accounts as saved (log files on disk have reached
+    /// size - unsaved bytes of every segment). Deadline 2 s; never a verdict by itself.
     fn quiesce_nowait(&mut self) {
-        if !self.cfg.no_wait || !self.p.masked("KF-C03-1") {
+        if !self.cfg.no_wait || self.node.is_none() {
             return;
         }
-        self.out.exclude("KF-C03-1");
         let deadline = std::time::Instant::now() + std::time::Duration::from_secs(2);
         loop {
             let mut want = 0u64;
             for pid in 1..=self.parts.len() as u32 {
-                want += self.observe(pid).iter().map(|s| s.size).sum::<u64>();
+                want += self.observe(pid).iter().map(|s| s.size.saturating_sub(s.unsaved_bytes)).sum::<u64>();
             }
             let have: u64 = list_files(&self.dir.path)
                 .iter()
@@ -187,10 +188,14 @@ impl<'a> Interp<'a> {
                 .filter_map(|f| std::fs::metadata(f).ok())
                 .map(|m| m.len())
                 .sum();
-            if have >= want || std::time::Instant::now() > deadline {
+            if have >= want {
                 break;
             }
-            self.node().settle(2);
+            if std::time::Instant::now() > deadline {
+                self.out.count("nowait_quiesce_timeouts", 1);
+                break;
+            }
+            self.node().settle(1);
         }
     }
 
@@ -297,6 +302,15 @@ impl<'a> Interp<'a> {
                                 closed: s.is_closed,
                                 unsaved: s.unsaved_messages.as_ref().map(|a| a.unsaved_messages_count()).unwrap_or(0),
                                 size: s.size_bytes.as_bytes_u64(),
+                                unsaved_bytes: s
+                                    .unsaved_messages
+                                    .as_ref()
+                                    .filter(|a| !a.is_empty())
+                                    .map(|a| {
+                                        use iggy::utils::sizeable::Sizeable;
+                                        a.get_size_bytes().as_bytes_u64().saturating_sub(24)
+                                    })
+                                    .unwrap_or(0),
                             });
                         }
                     }
@@ -317,6 +331,7 @@ impl<'a> Interp<'a> {
     /// poll by offset, with the no-wait quiesce rule (8.1-10): under no-wait
     /// confirmation a short answer is re-read until it is complete or 3 s passed.
     fn poll_offset(&mut self, pid: u32, offset: u64, count: u32, want: usize) -> Result<PolledMessages, Failure> {
+        self.quiesce_nowait();
         let deadline = std::time::Instant::now() + std::time::Duration::from_secs(3);
         loop {
             let r = self.raw_poll(pid, &PollingStrategy::offset(offset), count, 99, false);
